@@ -36,6 +36,10 @@ def table_specs(draw, classes=CLASSES):
         k = draw(st.integers(1, 4))
         idx = draw(st.lists(st.integers(0, len(ATOMS) - 1), min_size=k, max_size=k, unique=True))
         doms.append([ATOMS[i] for i in idx])
+    if nf >= 2 and draw(st.integers(0, 3)) == 0:
+        # an inner domain made of outer-domain values in another order ("go to node" actions)
+        f = draw(st.integers(1, nf - 1))
+        doms[f] = draw(st.permutations(doms[0]))[:draw(st.integers(1, len(doms[0])))]
     if cls == "StateActionNextStateTable":
         doms[2] = list(doms[0])
     collide = False
@@ -144,6 +148,30 @@ def prop_keys(spec, ctx):
             if pk not in outer:
                 got = ctx.call("C12.partial_key_raises", lambda: t[pk])
                 expect_equal(ctx, "C12.partial_key", got, doms[2:], base[pos[0], pos[1]], f"t[{pk!r}]")
+    # a domaintuple (what state_list / action_list are) is a tuple: as a key it means what the plain tuple means -
+    # the same cell / sub-table, or the same kind of error (its entries must all be outer elements to be accepted at all)
+    if nf >= 2:
+        from msdm.core.table import domaintuple
+        from msdm.core.table.tableindex import DomainError
+        dkeys = [k for ln in range(2, nf + 1) for k in itertools.product(outer, repeat=ln)][:150]
+        for key in dkeys:
+            if key in outer:
+                continue
+            try:
+                want = t[key]
+                werr = None
+            except (Exception, DomainError) as e:
+                want, werr = None, type(e).__name__
+            try:
+                got = t[domaintuple(key)]
+                gerr = None
+            except (Exception, DomainError) as e:
+                got, gerr = None, type(e).__name__
+            ctx.check(werr == gerr, "C12.domaintuple_key_is_a_tuple_key", lambda: f"t[{key!r}]: {werr or 'value'}; as domaintuple: {gerr or 'value'}")
+            if werr is None and gerr is None:
+                same = (is_tableish(want) == is_tableish(got)) and np.array_equal(np.asarray(want, dtype=float), np.asarray(got, dtype=float))
+                ctx.check(same, "C12.domaintuple_key_is_a_tuple_key", lambda: f"t[{key!r}] = {want!r}; as domaintuple: {got!r}")
+                ctx.event("domaintuple_key_value")
     # (d) lists of outer keys: permutations / sub-lists up to length 3
     idxs = list(range(len(outer)))
     lists = [list(p) for r in range(1, min(3, len(outer)) + 1) for p in itertools.permutations(idxs, r)]
